@@ -977,31 +977,7 @@ func (c *Ctx) uncachedReadsAreQuorumReads() {
 			}
 		}
 	}
-	emptyRV := func(info *types.Info, e ast.Expr) (bool, string) {
-		e = ast.Unparen(e)
-		cl, ok := e.(*ast.CompositeLit)
-		if !ok {
-			return false, "the options are not a literal: " + types.ExprString(e)
-		}
-		for i, el := range cl.Elts {
-			kv, ok := el.(*ast.KeyValueExpr)
-			var v ast.Expr
-			if ok {
-				if k, isID := kv.Key.(*ast.Ident); !isID || k.Name != "ResourceVersion" {
-					continue
-				}
-				v = kv.Value
-			} else if i == 1 {
-				v = el // positional: TypeMeta, ResourceVersion
-			} else {
-				continue
-			}
-			if tv, ok := info.Types[v]; !ok || tv.Value == nil || tv.Value.ExactString() != `""` {
-				return false, "resourceVersion is set to " + types.ExprString(v)
-			}
-		}
-		return true, ""
-	}
+	emptyRV := emptyResourceVersion
 	for _, s := range c.G.Sites {
 		if s.Class != "read" || s.Verb != "Get" || s.Resource != "statefulsets.pingcap" || s.Fn.Pkg() == nil || !strings.HasPrefix(s.Fn.Pkg().Path(), load.RootMod+"/pkg/") {
 			continue
@@ -1062,4 +1038,31 @@ func defRHSOr(fi *load.FuncInfo, info *types.Info, e ast.Expr) ast.Expr {
 		return d
 	}
 	return e
+}
+
+// emptyResourceVersion: the options literal e sets no resourceVersion (or sets it to "").
+func emptyResourceVersion(info *types.Info, e ast.Expr) (bool, string) {
+	e = ast.Unparen(e)
+	cl, ok := e.(*ast.CompositeLit)
+	if !ok {
+		return false, "the options are not a literal: " + types.ExprString(e)
+	}
+	for i, el := range cl.Elts {
+		kv, ok := el.(*ast.KeyValueExpr)
+		var v ast.Expr
+		if ok {
+			if k, isID := kv.Key.(*ast.Ident); !isID || k.Name != "ResourceVersion" {
+				continue
+			}
+			v = kv.Value
+		} else if i == 1 {
+			v = el // positional: TypeMeta, ResourceVersion
+		} else {
+			continue
+		}
+		if tv, ok := info.Types[v]; !ok || tv.Value == nil || tv.Value.ExactString() != `""` {
+			return false, "resourceVersion is set to " + types.ExprString(v)
+		}
+	}
+	return true, ""
 }
